@@ -153,7 +153,8 @@ fn literals() -> Vec<Case> {
         "min \\x_i + 2 * \\y_j_k - x_i\ns.t.\n    \\x_i >= i\n    \\y_j_k >= x_i + \\x_i\nwhere\n    let i = 5\ndefine\n    \\x_i as Real\n    \\y_j_k as NonNegativeReal\n    x_i as Real",
         "solve\ns.t.\n    a -> b <-> c\n    (a -> b) <-> c\n    not (a and b) or c xor a\n    any { a, b } implies all { b, c }\ndefine\n    a, b, c as Boolean",
         "max 2(x + y) - 3x / 2\ns.t.\n    x - (y - z) <= 4\n    x / (2 * y) >= -1\n    -(x + y) <= -(-2)\n    x * -2 <= 0 * (y / 1)\ndefine\n    x, y, z as Real(-10, 10)",
-        "min prod(i in 1..=3) { i } * x + max(i in 0..2) { i * y } - min { x, y }\ns.t.\n    sum(i in 0..2, j in i..3) { c[i][j] * x } <= len(c)\nwhere\n    let c = [[1, 2, 3], [4, 5, 6]]\ndefine\n    x, y as NonNegativeReal",
+"min sum(i in r) { x_i } + len(q) * y\ns.t.\n    x_i >= 1 for i in r\n    sum((v, j) in enumerate(q)) { v * y } <= len(zip(q, q)) + len(union(q, w))\n    sum(j in intersection(q, w)) { j * y } + sum(j in difference(q, w)) { j * y } <= 9\n    y >= 0 for k in range(1, 3, false)\nwhere\n    let r = range(0, 3, true)\n    let h = range(0, 2, false)\n    let q = [1, 2, 3]\n    let w = [2, 5]\n    let n = len(h)\ndefine\n    x_i as Real(0, 5) for i in r\n    y as Real(0, 5)",
+                "min prod(i in 1..=3) { i } * x + max(i in 0..2) { i * y } - min { x, y }\ns.t.\n    sum(i in 0..2, j in i..3) { c[i][j] * x } <= len(c)\nwhere\n    let c = [[1, 2, 3], [4, 5, 6]]\ndefine\n    x, y as NonNegativeReal",
     ];
     src.iter()
         .map(|s| Case {
@@ -200,6 +201,12 @@ impl Prop for C11 {
         prop_oneof![
             5 => (model_case(PARAMS), any::<u64>(), konst, any::<bool>()).prop_map(|(model, style, consts, comments)| Case { model, style, consts, comments, literal: None }),
             4 => (mixed_exp(&names, 5), proptest::option::of(mixed_exp(&names, 3)), any::<u64>()).prop_map(|(e, r, s)| untyped_case(e, r, s)),
+            // data-driven programs (iterations, aggregations, graphs, destructuring, computed
+            // subscripts) from C06's generator, both the driven text and its hand-unrolled twin
+            4 => (crate::gen::data::data_prog(), any::<bool>()).prop_map(|(d, unrolled)| {
+                let (driven, flat) = d.texts();
+                Case { model: ModelCase { vars: vec![], cons: vec![], obj: SObj::Satisfy, structural_logic: true, mark_all_used: false, point_seed: 0 }, style: 0, consts: vec![], comments: false, literal: Some(if unrolled { flat } else { driven }) }
+            }),
         ]
         .boxed()
     }
@@ -221,7 +228,7 @@ impl Prop for C11 {
         serde_json::to_string(&c.text()).unwrap()
     }
     fn rule(&self) -> String {
-        "full source texts: generated models (objective, 1-4 constraints from the typed grammar, named rows, where-constants used by extra rows, comments, 's.t.' or 'subject to', all declaration forms incl. infinite bounds) printed with random spelling (keyword/symbolic operators, required or redundant parentheses, implicit multiplication, all{}/any{} blocks), untyped operator trees of depth <= 5 over all 9 binary and 2 prefix operators, the exhaustive depth-2 nesting table, and literal programs with iterations, graphs, enumerate, escaped and indexed names. Oracle: format() succeeds, the formatted text parses, formats to itself, and parse_and_transform of original and formatted text give the same Model (JSON compared without spans) or fail alike. Non-trivial = the text holds a nesting where dropping parentheses would change grouping, or a construct other than plain arithmetic. Distinct = distinct text.".into()
+        "full source texts: generated models (objective, 1-4 constraints from the typed grammar, named rows, where-constants used by extra rows, comments, 's.t.' or 'subject to', all declaration forms incl. infinite bounds) printed with random spelling (keyword/symbolic operators, required or redundant parentheses, implicit multiplication, all{}/any{} blocks), untyped operator trees of depth <= 5 over all 9 binary and 2 prefix operators, the exhaustive depth-2 nesting table, literal programs with iterations, graphs, enumerate, escaped and indexed names, and data-driven programs from C06's generator (ranges, arrays, matrices, graphs, enumerate/zip/set functions, scoped blocks, tuple destructuring, empty and growing aggregations, computed subscripts such as x_{a[i]} and x_{len(a) - 1}) together with their hand-unrolled twins. Oracle: format() succeeds, the formatted text parses, formats to itself, and parse_and_transform of original and formatted text give the same Model (JSON compared without spans) or fail alike. Non-trivial = the text holds a nesting where dropping parentheses would change grouping, or a construct other than plain arithmetic. Distinct = distinct text.".into()
     }
     fn check(&self, case: &Case) -> Outcome {
         let src = case.text();
